@@ -4,6 +4,10 @@
 
 package bag
 
+// C17, package-wide: a function that takes a sync lock itself has released it
+// again on every normal return path (directly or through a deferred call).
+//@ every-function bag lock-balance
+
 // C07, package-wide: a function that evaluates Lisp forms itself forwards the
 // return-from / go marker an evaluation hands back: nothing more is evaluated
 // and the marker is the function's result.
